@@ -484,7 +484,7 @@ pub fn arb_aligned_zone() -> SBoxedStrategy<MZone> {
 pub fn arb_leap_adjacent_zone() -> SBoxedStrategy<MZone> {
     (
         prop_oneof![2 => Just(crate::oleap::real_table()), 2 => arb_leap_table(6)],
-        proptest::collection::vec((any::<u32>(), -50_400i64..50_400, (-56i32..=56).prop_map(|k| k * 900), any::<bool>()), 1..6),
+        proptest::collection::vec((any::<u32>(), prop_oneof![2 => -2i64..=2, 3 => -50_400i64..50_400], (-56i32..=56).prop_map(|k| k * 900), any::<bool>()), 1..6),
         (-56i32..=56).prop_map(|k| k * 900),
         0u8..3,
     )
